@@ -123,6 +123,57 @@ class Facts:
         self.worlds_in = {}
         self.extra_edge_atoms = {}   # (p, target) -> [atoms], filled by rules before solve()
         self._desc_memo = {}
+        self._used_phis = None
+
+    def used_phis(self):
+        """phi terms of value locals that occur in some event of the body"""
+        if self._used_phis is None:
+            out = set()
+
+            def walk(t):
+                if isinstance(t, tuple):
+                    if len(t) == 3 and t[0] == "phi" and isinstance(t[2], str) and t[2].startswith("v"):
+                        out.add(t)
+                        return
+                    for x in t:
+                        if isinstance(x, tuple):
+                            walk(x)
+            for ev in self.an.events:
+                for k in ("discr", "cond", "val", "res"):
+                    if k in ev and ev[k] is not None:
+                        walk(ev[k])
+                for a in ev.get("args", ()) or ():
+                    walk(a)
+            for t in self.an.stmt_terms.values():
+                walk(t)
+            self._used_phis = out
+        return self._used_phis
+
+    def phi_atoms(self, p, b):
+        """what the edge p -> b says about the phis of b (b is not a loop header): the merged value is the
+        one flowing in along this edge"""
+        an = self.an
+        out = []
+        if any(self.cfg.dominates(b, q) for q, _ in self.cfg.pred[b]):
+            return out
+        used = self.used_phis()
+        for var in an.phis.get(b, ()):
+            phi = ("phi", b, var)
+            if phi not in used or p not in an.ver_out:
+                continue
+            t = an.var_term(an.ver_out[p], var)
+            if t == phi or t[0] in ("undef", "opq", "init", "unk"):
+                continue
+            if t[0] == "agg" and t[1] == "adt" and t[2][1] in ("None", "Some", "Ok", "Err"):
+                out.append(("variant", phi, t[2][1]))
+                from .core import mk_field
+                for i, op in enumerate(t[3]):
+                    out.append(mk_eq(mk_field(("dc", phi, t[2][1]), str(i), i), op))
+            elif t[0] == "const" and t[1] == "bool":
+                out.append(("true", phi) if t[2] else ("false", phi))
+            else:
+                out.append(mk_eq(phi, t))
+        return out
 
     def solve(self):
         cfg = self.cfg
@@ -136,7 +187,7 @@ class Facts:
                     continue  # back edge
                 if p not in self.worlds_in:
                     continue
-                gen = self.edge_atoms(p, lab, b)
+                gen = self.edge_atoms(p, lab, b) + self.phi_atoms(p, b)
                 gen = self.close(gen)
                 for w in self.worlds_in[p]:
                     nw = w | frozenset(gen) if gen else w
@@ -350,6 +401,8 @@ class Facts:
                     out.append(("lt", args[1], ("len", cont)))
             if key in ("core::option::Option::unwrap", "core::option::Option::expect") and args:
                 out.append(("variant", args[0], "Some"))
+            if ev.get("unwraps") is not None:
+                out.append(("variant", ev["unwraps"], "Some"))
             if key in ("core::result::Result::unwrap", "core::result::Result::expect") and args:
                 out.append(("variant", args[0], "Ok"))
         return out
